@@ -97,6 +97,17 @@ def name_str(n):
     return dname_str(n[1]) + {"img": "", "meta": ".meta", "metatmp": ".meta.tmp"}[n[0]]
 
 
+def cfg_term(maxchain):
+    """The model configuration.  Normally Meta.Corr.code_cfg (the repairs /repo has, recorded in Corr.v);
+    JIVA_META_FIXES=f5,f9,f10,f11 overrides it for trying a patch in a scratch worktree."""
+    fx = os.environ.get("JIVA_META_FIXES")
+    n = maxchain or 1024
+    if fx is None:
+        return "code_cfg %d" % n
+    have = set(x.strip() for x in fx.split(",") if x.strip())
+    return "mkcfg %d %s %s %s %s" % (n, bt("f5" in have), bt("f9" in have), bt("f10" in have), bt("f11" in have))
+
+
 class Tables:
     """created strings and content hashes are interned per case"""
 
@@ -180,10 +191,13 @@ def op_term(o, now=0):
         return "OCheckpoint %s" % ("(Some (%s))" % dname_term(tuple(o["d"])) if o.get("d") else "None")
     if k == "rebuilding":
         return "ORebuilding %s" % bt(o["b"])
+    if k == "crashin":
+        return "OCrashIn %d (%s)" % (o["k"], op_term(o["inner"], now))
     raise ValueError(o)
 
 
 def universe(ops, extra_heads=2):
+    ops = [o["inner"] if o["op"] == "crashin" else o for o in ops]
     heads = 1 + extra_heads + sum(1 for o in ops if o["op"] in ("snap", "revert", "create"))
     snaps, odds = [0], []
     for o in ops:
@@ -271,7 +285,10 @@ def obs_term(ob, univ, tb):
                 if cs in files and files[cs]["ino"] == f["ino"]:
                     canon = c
                     break
-            kind = "KImg (%s) %s [%d%%N]" % (dname_term(canon), bt(f["blocks"] > 0), tb.token(f.get("hash", "?")))
+            toks = [tb.token(f.get("hash", "?"))]
+            if ob.get("snaps") and s in ob["snaps"]:
+                toks.append(tb.token("snap:" + ob["snaps"][s]))
+            kind = "KImg (%s) %s [%s]" % (dname_term(canon), bt(f["blocks"] > 0), "; ".join("%d%%N" % t for t in toks))
         ents.append("(%s, %s)" % (name_term(n), kind))
     if len(seen) != len(files):
         raise Unmodelled("file outside the universe: %r" % sorted(set(files) - seen))
@@ -295,7 +312,7 @@ def case_term(ops, outobs, maxchain):
     now = now_of(outobs, tb)
     ot = [op_term(o, now) for o in ops]
     bt_ = [obs_term(ob, univ, tb) for ob in outobs]
-    return "mkcase (mkcfg %d code_fixed) [%s] [%s] [%s]" % (maxchain or 1024, "; ".join(dname_term(d) for d in univ),
+    return "mkcase (%s) [%s] [%s] [%s]" % (cfg_term(maxchain), "; ".join(dname_term(d) for d in univ),
                                                              "; ".join(ot), ";\n ".join(bt_))
 
 
@@ -524,3 +541,352 @@ def shrink(ctx, binpath, case, still_bad, tag="shr"):
                 changed = True
                 break
     return dict(ops=cur, maxchain=case.get("maxchain", 0))
+
+
+# ================================================================================================ T1v (C08)
+
+TRACE_SET = ("openat,rename,renameat,renameat2,link,linkat,unlink,unlinkat,fsync,fdatasync,truncate,ftruncate,"
+             "write,pwrite64,fallocate,mkdir,mkdirat")
+
+
+def dcode(d):
+    k, v = d
+    return {"h": 3 * v, "s": 3 * v + 1, "o": 3 * v + 2}[k]
+
+
+def ncode(n):
+    if n[0] == "vol":
+        return 4
+    if n[0] == "voltmp":
+        return 5
+    if n[0] == "counter":
+        return 6
+    return 8 * dcode(n[1]) + {"img": 1, "meta": 2, "metatmp": 3}[n[0]]
+
+
+SYS_NAMES = {1: "open(dir)", 2: "open(ro)", 3: "open(rw)", 4: "write", 5: "rename", 6: "link", 7: "unlink", 8: "truncate",
+             9: "fsync", 10: "pwrite", 11: "mkdir(dir)"}
+
+
+def parse_strace(path, rundir, markdir):
+    """System calls of the main thread.  Returns list of dict(name, ord, canon, ret, win) in entry order;
+    canon = (tag, a, b) as Meta.Corr.sys_code, None for calls that are dropped (rmdir attempt of os.Remove),
+    'B'/'E' for the markers.  ord = ordinal of this syscall name on the main thread (what strace's when= counts)."""
+    lines = open(path, errors="replace").read().split("\n")
+    mainpid = None
+    pending = {}
+    seq = []
+    for ln in lines:
+        m = re.match(r"(\d+)\s+(.*)$", ln)
+        if not m:
+            continue
+        pid, rest = m.group(1), m.group(2)
+        if mainpid is None:
+            mainpid = pid
+        if rest.startswith("---") or rest.startswith("+++"):
+            continue
+        if rest.endswith("<unfinished ...>"):
+            pending[pid] = len(seq)
+            seq.append([pid, rest[:-len("<unfinished ...>")].rstrip(), False])
+            continue
+        m2 = re.match(r"<\.\.\. (\w+) resumed>(.*)$", rest)
+        if m2:
+            if pid in pending:
+                seq[pending[pid]][1] += m2.group(2)
+                seq[pending[pid]][2] = True
+                del pending[pid]
+            continue
+        seq.append([pid, rest, True])
+    out = []
+    ords = {}
+    fds = {}
+    win = 0
+    rd = rundir.rstrip("/")
+
+    def nm(p):
+        if os.path.dirname(p) != rd:
+            raise Unmodelled("path outside the replica directory: %r" % p)
+        return name_parse(os.path.basename(p))
+
+    for pid, text, done in seq:
+        if pid != mainpid:
+            m = re.match(r"(\w+)\(", text)
+            if m and win == 1 and (rd in text or m.group(1) not in ("openat",)):
+                raise Unmodelled("traced system call on another thread: %s" % text)
+            continue
+        m = re.match(r"(\w+)\((.*?)\)?\s*(?:=\s*(-?\d+|\?)(.*))?$", text)
+        if not m:
+            continue
+        name, args, ret = m.group(1), m.group(2), m.group(3)
+        ords[name] = ords.get(name, 0) + 1
+        ent = dict(name=name, ord=ords[name], ret=ret, canon=None, win=False, text=text)
+        strs = re.findall(r'"((?:[^"\\]|\\.)*)"', args)
+        if name in ("mkdirat", "mkdir") and strs and os.path.dirname(strs[0]) == markdir.rstrip("/"):
+            ent["canon"] = os.path.basename(strs[0])
+            win = 1 if ent["canon"] == "B" else 2
+            out.append(ent)
+            continue
+        if win != 1 and name == "openat" and strs and ret and ret.lstrip("-").isdigit() and int(ret) >= 0:
+            # descriptors opened before the window (head image, revision.counter) are written inside it
+            if strs[0] == rd:
+                fds[int(ret)] = ("dir",)
+            elif os.path.dirname(strs[0]) == rd:
+                try:
+                    fds[int(ret)] = name_parse(os.path.basename(strs[0]))
+                except ValueError:
+                    fds.pop(int(ret), None)
+            else:
+                fds.pop(int(ret), None)
+        if win == 1:
+            ent["win"] = True
+            try:
+                if name == "openat":
+                    p = strs[0]
+                    fl = args.split(",")[2] if len(args.split(",")) > 2 else ""
+                    if p == rd:
+                        ent["canon"] = (1, 0, 0)
+                        if ret and ret.lstrip("-").isdigit() and int(ret) >= 0:
+                            fds[int(ret)] = ("dir",)
+                    else:
+                        n = nm(p)
+                        if "O_RDWR" in fl or "O_WRONLY" in fl:
+                            ent["canon"] = (3, ncode(n), (2 if "O_CREAT" in fl else 0) + (1 if "O_TRUNC" in fl else 0))
+                        else:
+                            ent["canon"] = (2, ncode(n), 0)
+                        if ret and ret.lstrip("-").isdigit() and int(ret) >= 0:
+                            fds[int(ret)] = n
+                elif name in ("write", "pwrite64"):
+                    fd = int(args.split(",")[0])
+                    n = fds.get(fd)
+                    if n is None or n == ("dir",):
+                        raise Unmodelled("write to an unknown descriptor: %s" % text)
+                    ent["canon"] = (4 if name == "write" else 10, ncode(n), 0)
+                elif name in ("renameat", "rename", "renameat2"):
+                    ent["canon"] = (5, ncode(nm(strs[0])), ncode(nm(strs[1])))
+                elif name in ("linkat", "link"):
+                    ent["canon"] = (6, ncode(nm(strs[0])), ncode(nm(strs[1])))
+                elif name in ("unlinkat", "unlink"):
+                    if "AT_REMOVEDIR" in args:
+                        ent["canon"] = None
+                    else:
+                        ent["canon"] = (7, ncode(nm(strs[0])), 0)
+                elif name in ("truncate",):
+                    ent["canon"] = (8, ncode(nm(strs[0])), 0)
+                elif name in ("fsync", "fdatasync"):
+                    ent["canon"] = (9, 0, 0)
+                elif name in ("mkdirat", "mkdir"):
+                    if strs and strs[0].rstrip("/") == rd:
+                        ent["canon"] = (11, 0, 0)
+                    else:
+                        raise Unmodelled("mkdir of %r" % strs)
+                else:
+                    raise Unmodelled("system call not in the model's alphabet: %s" % text)
+            except (ValueError, IndexError) as e:
+                raise Unmodelled("cannot canonicalise %r: %s" % (text, e))
+        out.append(ent)
+    return out
+
+
+def strace_victim(victim, predir, rundir, markdir, opj, tracefile, inject=None, timeout=60):
+    shutil.rmtree(rundir, ignore_errors=True)
+    shutil.rmtree(markdir, ignore_errors=True)
+    subprocess.run(["cp", "-a", "--sparse=always", predir, rundir], check=True)
+    os.makedirs(markdir)
+    argv = ["strace", "-f", "-o", tracefile, "-e", "trace=" + TRACE_SET]
+    if inject:
+        argv += ["-e", "inject=" + inject]
+    argv += [victim, rundir, markdir, json.dumps(opj)]
+    try:
+        p = subprocess.run(argv, stdout=subprocess.PIPE, stderr=subprocess.PIPE, timeout=timeout, text=True)
+    except subprocess.TimeoutExpired:
+        return dict(res="hang", rc=-1)
+    res = dict(rc=p.returncode, res="died", stderr=p.stderr[-300:])
+    for ln in p.stdout.split("\n"):
+        ln = ln.strip()
+        if ln.startswith("{"):
+            try:
+                j = json.loads(ln)
+                res["res"] = j["res"]
+                res["err"] = j.get("err", "")
+                res["actions"] = j.get("actions", 0)
+            except ValueError:
+                pass
+    return res
+
+
+ERRNO_OF_TAG = {1: "EIO", 2: "EIO", 3: "ENOSPC", 4: "ENOSPC", 5: "ENOSPC", 6: "ENOSPC", 7: "EIO", 8: "ENOSPC", 9: "EIO",
+                10: "ENOSPC", 11: "ENOSPC"}
+
+
+def victim_op_json(o, maxchain=0):
+    j = op_json(o)
+    if maxchain:
+        j["maxchain"] = maxchain
+    return j
+
+
+def vcase_term(vc, now):
+    univ = universe(vc["pre"] + [vc["op"]])
+    return "mkvcase (%s) [%s] [%s] (%s)" % (
+        cfg_term(vc.get("maxchain")), "; ".join(dname_term(d) for d in univ),
+        "; ".join(op_term(o, now) for o in vc["pre"]), op_term(vc["op"], now)), univ
+
+
+def run_vcases(ctx, metabin, victim, vcases, tag="v", fail=True, kill=True, workers=16, only=None):
+    """vcases: list of dict(pre=[ops], op=op, maxchain=int).
+    Returns list (per vcase) of dict(trace_ok, trace_diff, runs=[...], ncalls, nsys, pre, post, skipped)."""
+    import concurrent.futures as cf
+    base = os.path.join(ctx.work, tag)
+    os.makedirs(base, exist_ok=True)
+    # 1. pre-state directories from the real code
+    hc = []
+    for i, vc in enumerate(vcases):
+        vc["predir"] = os.path.join(base, "pre%d" % i)
+        hc.append(dict(id=i, ops=[op_json(o) for o in vc["pre"]], maxchain=vc.get("maxchain", 0), keep=vc["predir"]))
+    outs = vlib.run_harness(ctx, metabin, hc, tag=tag + "pre", workers=min(8, max(1, len(hc))))
+    for i, vc in enumerate(vcases):
+        if outs[i].get("err"):
+            raise RuntimeError("pre-state %d: %s" % (i, outs[i]["err"]))
+        vc["tb"] = Tables()
+        vc["now"] = now_of(outs[i]["obs"], vc["tb"])
+    # 1b. staged pre-states: the directory left by an earlier process death inside an operation
+    staged = [vc for vc in vcases if vc.get("stage")]
+    if staged:
+        svals = vlib.coq_eval(ctx, tag + "_st", ["Meta.Model", "Meta.Corr"], "",
+                              ["vic_trace (%s)" % vcase_term(dict(pre=vc["pre"], op=vc["stage"]["op"], maxchain=vc.get("maxchain")), vc["now"])[0]
+                               for vc in staged])
+        for k, (vc, v) in enumerate(zip(staged, svals)):
+            mtr = [tuple(vlib.flat(x)) for x in vlib.parse_coq_list(v)]
+            sd = os.path.join(base, "stage%d" % k)
+            os.makedirs(sd, exist_ok=True)
+            opj = victim_op_json(vc["stage"]["op"], vc.get("maxchain", 0))
+            strace_victim(victim, vc["predir"], os.path.join(sd, "full"), os.path.join(sd, "mk-full"), opj, os.path.join(sd, "full.trace"))
+            ents = [e for e in parse_strace(os.path.join(sd, "full.trace"), os.path.join(sd, "full"), os.path.join(sd, "mk-full"))
+                    if e["win"] and e["canon"] is not None]
+            j = vc["stage"]["j"]
+            if [e["canon"] for e in ents] != [t[1:] for t in mtr] or j >= len(ents):
+                raise Unmodelled("staged pre-state: trace of %r differs from the model" % (vc["stage"]["op"],))
+            strace_victim(victim, vc["predir"], os.path.join(sd, "dir"), os.path.join(sd, "mk"), opj, os.path.join(sd, "k.trace"),
+                          inject="%s:signal=SIGKILL:when=%d" % (ents[j]["name"], ents[j]["ord"]))
+            vc["predir"] = os.path.join(sd, "dir")
+            vc["pre_model"] = vc["pre"] + [dict(op="open"), dict(op="mode", mode="RW"),
+                                           dict(op="crashin", k=mtr[j][0], inner=vc["stage"]["op"])]
+    for i, vc in enumerate(vcases):
+        vc["term"], vc["univ"] = vcase_term(dict(pre=vc.get("pre_model", vc["pre"]), op=vc["op"], maxchain=vc.get("maxchain")), vc["now"])
+    # 2. the model's canonical system-call trace of every operation
+    vals = vlib.coq_eval(ctx, tag + "_tr", ["Meta.Model", "Meta.Corr"], "",
+                         ["(vic_trace (%s), vic_ncalls (%s))" % (vc["term"], vc["term"]) for vc in vcases])
+    for vc, v in zip(vcases, vals):
+        tr, n = vlib.parse_coq_list(v)
+        vc["mtrace"] = [tuple(vlib.flat(x)) for x in tr]      # (model index, tag, a, b)
+        vc["ncalls"] = n
+    # 3. pass 1: the complete run under strace
+    results = []
+
+    def pass1(arg):
+        i, vc = arg
+        d = os.path.join(base, "c%d" % i)
+        os.makedirs(d, exist_ok=True)
+        vc["dir"] = d
+        vc["opj"] = victim_op_json(vc["op"], vc.get("maxchain", 0))
+        r = strace_victim(victim, vc["predir"], os.path.join(d, "full"), os.path.join(d, "mk-full"), vc["opj"],
+                          os.path.join(d, "full.trace"))
+        ents = parse_strace(os.path.join(d, "full.trace"), os.path.join(d, "full"), os.path.join(d, "mk-full"))
+        return r, ents
+
+    with cf.ThreadPoolExecutor(max_workers=workers) as ex:
+        p1 = list(ex.map(pass1, enumerate(vcases)))
+    jobs = []
+    for i, (vc, (r, ents)) in enumerate(zip(vcases, p1)):
+        winents = [e for e in ents if e["win"] and e["canon"] is not None]
+        impl = [e["canon"] for e in winents]
+        model = [t[1:] for t in vc["mtrace"]]
+        info = dict(case=i, full=r, impl_trace=impl, model_trace=model, trace_ok=(impl == model), runs=[],
+                    nsys=len(impl), ncalls=vc["ncalls"])
+        if not any(e["canon"] == "E" for e in ents):
+            info["trace_ok"] = False
+            info["note"] = "the operation window did not end (result %s)" % r.get("res")
+        if not info["trace_ok"]:
+            k = 0
+            while k < len(impl) and k < len(model) and impl[k] == model[k]:
+                k += 1
+            info["trace_diff"] = dict(at=k, impl=impl[k] if k < len(impl) else None, model=model[k] if k < len(model) else None)
+        results.append(info)
+        vc["winents"] = winents
+        # kill / fail plans: align by position when the traces agree; otherwise only kills by raw position
+        for j, e in enumerate(winents):
+            mi = vc["mtrace"][j][0] if info["trace_ok"] else None
+            if only is not None and j not in only:
+                continue
+            if kill:
+                jobs.append((i, j, mi, None, "%s:signal=SIGKILL:when=%d" % (e["name"], e["ord"])))
+            if fail and info["trace_ok"]:
+                en = ERRNO_OF_TAG[e["canon"][0]]
+                jobs.append((i, j, mi, en, "%s:error=%s:when=%d" % (e["name"], en, e["ord"])))
+
+    # 4. the faulty runs
+    def faulty(job):
+        i, j, mi, en, inj = job
+        vc = vcases[i]
+        key = "%s%d" % ("f" if en else "k", j)
+        rd = os.path.join(vc["dir"], key)
+        r = strace_victim(victim, vc["predir"], rd, os.path.join(vc["dir"], "mk-" + key), vc["opj"],
+                          os.path.join(vc["dir"], key + ".trace"), inject=inj)
+        return dict(case=i, j=j, mi=mi, errno=en, res=r, dir=rd, inject=inj)
+
+    with cf.ThreadPoolExecutor(max_workers=workers) as ex:
+        runs = list(ex.map(faulty, jobs))
+    # 5. reopen every resulting directory with the real replica.New (fresh process per batch)
+    insp = [dict(id=k, inspect=r["dir"]) for k, r in enumerate(runs)]
+    for i, vc in enumerate(vcases):
+        insp.append(dict(id=len(runs) + i, inspect=os.path.join(vc["dir"], "full")))
+    io = vlib.run_harness(ctx, metabin, insp, tag=tag + "insp", workers=8, timeout=1800)
+    for k, r in enumerate(runs):
+        r["obs"] = io[k]["obs"]
+        results[r["case"]]["runs"].append(r)
+    for i, vc in enumerate(vcases):
+        results[i]["post_obs"] = io[len(runs) + i]["obs"]
+    return results
+
+
+def reopen_term(ob2, univ, tb):
+    """inspect output (directory as left, after replica.New) -> two obs terms"""
+    d = dict(ob2[0])
+    d.setdefault("res", "ok")
+    return obs_term(d, univ, tb), obs_term(ob2[1], univ, tb)
+
+
+def eval_vcases(ctx, vcases, results, tag="ve"):
+    """Evaluate Meta.Corr.check_vcase on every case.  Adds per run: ddiff, odiff, res_agree, oracle, strict,
+    mside, iside."""
+    import concurrent.futures as cf
+
+    def one(arg):
+        i, (vc, info) = arg
+        if not info["trace_ok"] or not info["runs"]:
+            return
+        tb, univ = vc["tb"], vc["univ"]
+        # pre = the kill before the first call of the window; post = the complete run
+        kills = [r for r in info["runs"] if r["errno"] is None]
+        first = min(kills, key=lambda r: r["j"]) if kills else None
+        if first is None or first["j"] != 0:
+            return
+        _, ipre = reopen_term(first["obs"], univ, tb)
+        _, ipost = reopen_term(info["post_obs"], univ, tb)
+        xs = []
+        for r in info["runs"]:
+            dterm, oterm = reopen_term(r["obs"], univ, tb)
+            cls = {"ok": "COk", "err": "CErr"}.get(r["res"]["res"], "CDied")
+            xs.append("mkvrun %d %s %s (%s) (%s)" % (r["mi"], "(Some %s)" % r["errno"] if r["errno"] else "None", cls, dterm, oterm))
+        defs = "Definition v := %s.\nDefinition ipre := %s.\nDefinition ipost := %s.\nDefinition xs := [\n%s\n].\n" % (
+            vc["term"], ipre, ipost, ";\n".join(xs))
+        vals = vlib.coq_eval(ctx, "%s_%d" % (tag, i), ["Meta.Model", "Meta.Corr"], defs, ["check_vcase v ipre ipost xs"])
+        rows = vlib.parse_coq_list(vals[0])
+        for r, row in zip(info["runs"], rows):
+            f = vlib.flat(row)
+            r.update(ddiff=f[1], odiff=f[2], res_agree=f[3], oracle=f[4], strict=f[5], mside=f[6], iside=f[7])
+        info["evaluated"] = True
+
+    with cf.ThreadPoolExecutor(max_workers=12) as ex:
+        list(ex.map(one, enumerate(zip(vcases, results))))
+    return results
